@@ -8,7 +8,7 @@ RULE = c01.RULE + ("; plus counters kept by the harness (handler runs per call t
                    "cancelled, the lock is released - server and client endpoint; unforced: 200 server calls with the response timed around the "
                    "deadline), after which a request on the same endpoint must be answered with exactly one response frame within 2 s")
 ASSUMPTIONS = c01.ASSUMPTIONS
-FILES = c01.FILES + ["root/peers_test.go", "root/c18_test.go", "root/c06_test.go", "root/c05_test.go"]
+FILES = c01.FILES + ["root/peers_test.go", "root/c18_test.go", "root/c06_test.go", "root/c05_test.go", "root/c05b_test.go"]
 RW = {"server.go": [(r"\btransport\.NewServerTransport\(", "vNewServerTransport(")],
       "client.go": [(r"\btransport\.NewClientTransport\(", "vNewClientTransport("), (r"\btime\.NewTimer\(", "vNewTimer(")]}
 
